@@ -15,7 +15,7 @@ ID = "C08"
 BOUND = 512 * 1024  # fixed bound on response data held per stream (independent of the response size)
 DELTA = 1.0
 RELEASES_H1 = ["resume", "close", "rst", "write_err"]
-RELEASES_H2 = ["window_update", "rst_stream", "close", "rst", "write_err", "fin"]
+RELEASES_H2 = ["window_update", "window_update_conn", "rst_stream", "close", "rst", "write_err", "fin"]
 
 
 def _cases() -> List[dict]:
@@ -27,6 +27,9 @@ def _cases() -> List[dict]:
         for rel in RELEASES_H2:
             for final_drain in (False, True):
                 cases.append({"worker": worker, "case": {"proto": "h2", "release": rel, "final_drain": final_drain}})
+        for rel in ("window_update", "rst_stream"):
+            cases.append({"worker": worker, "case": {"proto": "h2", "release": rel, "final_drain": False,
+                                                     "pace": "dribble"}})
     return cases
 
 
@@ -133,6 +136,15 @@ def run(tape: Tape, params: dict) -> Outcome:
         script.start_at(0.1)
     else:
         window = 0 if not final_drain else tape.choice([0, 1, 100], "h2.window")
+        conn_limited = case["release"] == "window_update_conn"
+        if conn_limited:
+            # the stream window is ample: the connection window (65535) is what runs out, and only
+            # connection-level credit arrives at the release
+            window = 16 << 20
+            if final_drain:
+                nchunks, data_chunk = 3, bytes(data_chunk[:1]) * 30000
+                chunks = [data_chunk] * nchunks
+                host.programs[b"big"] = [("recv_all",), ("respond", 200, [], chunks)]
         peer = H2Peer(initial_window=window, auto_window=False)
         peer.clock = lambda: sim.now
         sid_big, sid_sib = peer.new_stream(), peer.new_stream()
@@ -151,7 +163,23 @@ def run(tape: Tape, params: dict) -> Outcome:
                         (b":path", b"/" + tag), (b"x-tag", tag)]
                 sc.conn.client.send(peer.headers(sid, hdrs, end_stream=True))
             # the sibling gets credit, the big stream does not
-            sc.conn.client.send(peer.window_update(sid_sib, 100000))
+            if not conn_limited:
+                sc.conn.client.send(peer.window_update(sid_sib, 100000))
+            if case.get("pace") == "dribble":
+                sc.conn.client.send(peer.window_update(0, 50_000_000))
+                # credit arrives in pieces much smaller than a frame: the server may pass those on, but
+                # what it holds must stay bounded all the same
+                piece = tape.choice([100, 1, 5000], "dribble.piece")
+                t = 0.2
+                while t < t_release - 0.02:
+                    sim.at(t, dribble, sc, piece)
+                    t += 0.004
+
+        def dribble(sc: Script, piece: int) -> None:
+            if sc.ended or peer.stream_done(sid_big):
+                return
+            sc.conn.client.send(peer.window_update(sid_big, piece))
+            sim.fault("h2.dribbled_credit")
 
         def release(sc: Script) -> None:
             sample(sc)
@@ -162,6 +190,9 @@ def run(tape: Tape, params: dict) -> Outcome:
                 c.send(peer.window_update(0, 50_000_000))
                 c.send(peer.window_update(sid_big, 50_000_000))
                 peer.auto_window = True
+            elif rel == "window_update_conn":
+                c.send(peer.window_update(0, 50_000_000))
+                sim.at(sim.now + 0.5, lambda: setattr(peer, "auto_window", True))
             elif rel == "rst_stream":
                 c.send(peer.rst_stream(sid_big, 8))
             elif rel == "close":
@@ -222,14 +253,16 @@ def _check(world: World, host: AppHost, case: dict, script: Script, other: Scrip
         peer, sid = state["peer"], state["sid"]
         sib = peer.streams.get(sid + 2)
         t_sib = peer.end_times.get(sid + 2)
-        if sib is None or not sib.complete or t_sib is None or t_sib > t_release:
+        if case["release"] == "window_update_conn":
+            pass  # an exhausted connection window legitimately holds every stream
+        elif sib is None or not sib.complete or t_sib is None or t_sib > t_release:
             bad("others-blocked", f"sibling stream did not complete during the stall (ended at {t_sib})")
     # 3. released promptly: every send issued before the release returns within DELTA of it
     t_rel = state.get("t_release", t_release)
     for entry in inst.sends:
         issued_at, done_at = entry[1], entry[5]
         if issued_at <= t_rel and (entry[3] in ("pending",) or done_at is None or done_at > t_rel + DELTA):
-            if case["release"] in ("resume", "window_update"):
+            if case["release"] in ("resume", "window_update", "window_update_conn"):
                 # pressure abated: the send in progress at the release must make progress promptly
                 bad("release", f"send({entry[2]['type']}) issued at {issued_at:.3f} was still waiting "
                     f"{DELTA}s after the pressure abated at {t_rel:.3f} (returned: {done_at})")
